@@ -94,6 +94,16 @@ func corpus() []Plan {
 		{Kind: "corpus/compact-requests", Script: seq([]Step{cr(0, "v1"), up(0, "v2", 11), up(0, "v3", 12, unk(true)), compact(1 << 40), compact(11), compact(12), compact(13), st("list")}, drain)},
 		{Kind: "corpus/fixed-83355f7-update-future-revision", Script: seq([]Step{cr(0, "v1"), up(0, "v2", 1<<40), del(0, 1<<40), cr(1, "w", unk(true)), st("list")}, drain)},
 		{Kind: "corpus/delete-missing-and-stale", Script: seq([]Step{del(0, 0), cr(0, "v1"), del(0, 5), del(0, 0, unk(true)), del(0, 0), st("list")}, drain)},
+		// the cap must be strictly below the oldest unresolved revision u=12, whatever is requested, inside the retry window;
+		// the compaction really runs: without the cap the landed tombstone / version would be collected and the repair dropped
+		{Kind: "corpus/delete-landed-compact-in-window", Script: seq([]Step{cr(0, "v1"), st("list"), del(0, 0, unk(true)), compact(0), compact(1 << 40), compact(12), compact(13), st("list")}, drain)},
+		{Kind: "corpus/update-landed-compact-in-window", Script: seq([]Step{cr(0, "v1"), st("list"), up(0, "v2", 11, unk(true)), compact(0), compact(12), compact(13), st("list"), st("tick"), compact(0)}, drain)},
+		{Kind: "corpus/create-landed-compact-in-window", Script: seq([]Step{cr(1, "w0"), st("list"), cr(0, "v1", unk(true)), compact(0), compact(12), compact(1 << 40), st("list")}, drain)},
+		{Kind: "corpus/delete-not-landed-compact-in-window", Script: seq([]Step{cr(0, "v1"), st("list"), del(0, 11, unk(false)), compact(0), compact(12), st("list")}, drain)},
+		// create -> delete -> create again: the creator's second commit (CAS over the tombstone) draws the fault
+		{Kind: "corpus/update-as-create-over-tombstone-second-commit-unknown", Script: seq([]Step{cr(0, "v1"), del(0, 0), st("list"), up(0, "v2", 0, envOK(), unk(true)), st("list")}, drain)},
+		{Kind: "corpus/recreate-over-tombstone-after-abort-unknown", Script: seq([]Step{cr(0, "v1"), del(0, 0), st("list"), cr(0, "v2", Env{Kind: "abort"}, unk(true)), st("list")}, drain)},
+		{Kind: "corpus/recreate-over-tombstone-after-abort-unknown-not-applied", Script: seq([]Step{cr(0, "v1"), del(0, 0), st("list"), cr(0, "v2", Env{Kind: "abort"}, unk(false)), cr(0, "v3"), st("list")}, drain)},
 		{Kind: "corpus/outside-origin-is-compare-failure", Script: seq([]Step{cr(0, "v1"), st("list"), up(0, "v2", 11, Env{Kind: "unk", Applied: true, OCas: true})}, drain)},
 		{Kind: "corpus/definite-errors", Script: seq([]Step{cr(0, "v1", Env{Kind: "err"}), cr(0, "v2"), up(0, "v3", 12, Env{Kind: "err"}), del(0, 0, Env{Kind: "abort"}), {Kind: "delete", Key: 0, GetErr: true}, st("list")}, drain)},
 	}
@@ -117,6 +127,7 @@ type gen struct {
 	held    bool
 	queue   int
 	lastIdle bool
+	everDeleted [nKeys]bool
 }
 
 func (g *gen) val() []byte {
@@ -177,6 +188,17 @@ func (g *gen) write(faultP, faultQ int) Step {
 		}
 		s = Step{Kind: "delete", Key: k, Rev: rev}
 	}
+	if s.Kind != "delete" && g.everDeleted[k] && g.lastRev[k] == 0 && g.rnd.Chance(1, 2) {
+		// re-create of a deleted key: the creator's second commit (CAS over the tombstone) is the interesting one
+		s.Rev = 0
+		g.faults++
+		first := envOK()
+		if g.rnd.Chance(1, 3) {
+			first = Env{Kind: "abort"}
+		}
+		s.Envs = []Env{first, unk(g.rnd.Bool())}
+		return s
+	}
 	if g.rnd.Chance(faultP, faultQ) {
 		g.faults++
 		e := g.faultEnv()
@@ -232,6 +254,7 @@ func (g *gen) learn(s Step, o Obs) {
 	case "delete":
 		if o.Class == "ok" {
 			g.lastRev[s.Key] = 0
+			g.everDeleted[s.Key] = true
 		} else if o.Class == "cond" && o.Kv != nil {
 			g.lastRev[s.Key] = o.Kv.Rev
 		}
@@ -513,7 +536,7 @@ func runPlan(p Plan, scratch string) childOut {
 	out := childOut{ID: p.ID, Kind: p.Kind}
 	var script []Step
 	var res Result
-	for attempt := 0; attempt < 4; attempt++ {
+	for attempt := 0; attempt < 6; attempt++ {
 		r, err := NewRunner(p.Engine, scratch)
 		if err != nil {
 			out.Failure = "cannot start backend: " + err.Error()
@@ -537,7 +560,7 @@ func runPlan(p Plan, scratch string) childOut {
 	if res.Failure != "" {
 		out.Failure = res.Failure
 	} else if res.Tainted {
-		out.Failure = "timing: a retry iteration on a freshly queued node ran too late in four attempts (machine overloaded?)"
+		out.Failure = "timing: a retry iteration on a freshly queued node ran too late in six attempts (machine overloaded?)"
 	}
 	out.Coq = coqCase(script, res)
 	out.JSON = map[string]interface{}{"engine": p.Engine, "script": script, "obs": res.Obs, "events": res.Events}
@@ -555,6 +578,25 @@ func runPlan(p Plan, scratch string) childOut {
 			oc = script[i].Kind + "-" + o.Class
 			if o.Unk {
 				nontriv = true
+				// which commit of the request drew the unknown outcome
+				for j, e := range script[i].Envs {
+					if e.Kind == "unk" {
+						fk := fmt.Sprintf("fault:%s-commit%d", script[i].Kind, j+1)
+						if j > 0 {
+							fk += "-after-" + script[i].Envs[0].Kind
+						}
+						if e.Applied {
+							fk += "-applied"
+						} else {
+							fk += "-not-applied"
+						}
+						if !seen[fk] {
+							seen[fk] = true
+							out.Outcomes = append(out.Outcomes, fk)
+						}
+						break
+					}
+				}
 			}
 		}
 		if oc != "" && !seen[oc] {
@@ -649,7 +691,7 @@ func tikvTable(scratch string) ([]tableRow, []string) {
 
 func plans(seed uint64, tier string) []Plan {
 	ps := corpus()
-	nMem, nBadger, nTikv := 60, 0, 0
+	nMem, nBadger, nTikv := 110, 0, 0
 	switch tier {
 	case "thorough":
 		nMem, nBadger, nTikv = 700, 150, 150
